@@ -23,7 +23,8 @@ MANIFEST = {
             'ledger and head height against the in-memory tree. A separate fault-injecting batch fails a flush before '
             'commit (disk full) with a deliberately relaxed oracle.'
             " Half of the runs reach the store through the node's DiskInterface (save_block/flush_blocks); a discard_buffer operation (what the networking layer does when it rejects a validated block) is followed by handing the same blocks over again."
-            " While a flush is raced the store's lock is a simulated lock: the second thread is tried inside the write and parked only if it really meets the held lock. Injected flush failures are persistent (disk full) or transient (one statement).",
+            " While a flush is raced the store's lock is a simulated lock: the second thread is tried inside the write and parked only if it really meets the held lock. Injected flush failures are persistent (disk full) or transient (one statement)."
+            ' A few runs per batch build a store of about a thousand hand-made blocks (a window of sibling groups across the thousandth row, scattered siblings below), written in batches of 50-1000, reopened, read back completely and rebuilt: the size at which a paged, chunked or limited read-back first differs from a complete one.',
     'note': 'Trusted: reference store = list of flushed blocks; SQLite itself; no torn pages / crash inside commit '
             '(no VFS seam in Python sqlite3; the statement does not ask for them).',
 }
@@ -694,6 +695,6 @@ def describe():
                                 'disk-full fault injected at the sqlite cursor boundary']},
         'assumptions': ['blocks are handed to the store parents-first, as the node does',
                         'F6 (shared transaction) is a listed known finding: only the exact predicted loss is downgraded'],
-        'expected_probes': ['flushes', 'read_backs', 'rebuilds', 'reopens', 'probe:tree_has_fork', 'probe:block_buffered_twice',
+        'expected_probes': ['probe:store_of_a_thousand_blocks_with_sibling_groups', 'flushes', 'read_backs', 'rebuilds', 'reopens', 'probe:tree_has_fork', 'probe:block_buffered_twice',
                             'fault:restart_without_flush', 'fault:flush_failed_disk_full', 'probe:rebuild_with_shared_transactions', 'races'],
     }
